@@ -8,14 +8,13 @@ LEVEL_NOTE_COMMON = ("Trusted base: go/packages+go/ssa (x/tools v0.29.0) for the
                      "(validated on every run by re-running solver-produced path witnesses on the compiled code); z3 5.1.0 (z3-new). "
                      "Holds only within the stated bounds; exit 2 = inconclusive (unknown / unwind bound / unsupported path / vacuous harness).")
 # id -> (claim text, note on bounds, design section)
-CLAIMED = {
- 'C15': ("Every prefix/address kernel (Contains v4/v6, Equal, GetSupernet v4/v6 under the trie's calling precondition, BaseAddr, Valid, BitAtPosition, Compare, MaskLastNBits, Next, Bytes/IPv4FromBytes round trip) is executed symbolically from its SSA on full-width symbolic addresses and every prefix length 0..32 / 0..128 and compared with a bit-level definition on raw words; the solver shows no input violates an assertion. The right level because the defects of this code are rare-input mask/shift errors that only an all-values argument settles.",
-         "Outside: String()/parse round trip (string formatting loops are not encoded), lengths above 32/128, supernet outside its calling precondition.", "4 C15"),
- 'C02': ("Path.Select/BGPPath.Select/StaticPath.Select/FIBPath.Select on three fully symbolic paths: antisymmetry, transitivity (strict where an operand is strict), reflexivity, ties only between paths equal in every decision attribute; then the real Loc-RIB (AddPath/RemovePath, PathSelection with the sort.Slice closure) for 3 paths in all 3! arrival orders plus an extra path added at every position and withdrawn: same best path, ECMP count and ECMP set.",
-         "Bounds: 3(+1) paths per prefix, CLUSTER_LIST absent/1/2 entries; 8-bit LOCAL_PREF/MED/AS_PATH length in the Loc-RIB harness. sort.Slice is a model (the runtime's insertion sort for n<=12).", "4 C02"),
- 'C03': ("BGPPath.Select (and the best path through Route.PathSelection) on two BGP paths with every decision attribute symbolic at full width is compared, step by step and in both argument orders, with the RFC 4271 9.1.2.2 / RFC 4456 9 decision process written on raw fields (LOCAL_PREF, AS_PATH length, ORIGIN, MED, eBGP over iBGP, lowest identifier with ORIGINATOR_ID substituted, shortest CLUSTER_LIST with absent = 0, lowest peer address).",
-         "Bounds: CLUSTER_LIST absent or length 0..3; interior cost (step e) not implemented by bio-rd; ordering after the peer-address step unconstrained.", "4 C03"),
-}
+CLAIMED = {}
+for _p in props:
+    _f = os.path.join(ROOT, 'harness', _p['id'], 'descriptor.json')
+    if os.path.exists(_f):
+        _d = json.load(open(_f))
+        if _d.get('claim'):
+            CLAIMED[_p['id']] = (_d['claim'], _d.get('level_note', ''), _d.get('design_ref', '4 ' + _p['id']))
 REASON_PENDING = "no check registered yet in this session (the SSA-to-SMT harness for it is not built); see DESIGN.md section 4 for the planned encoding"
 NA = {}
 checks = []
